@@ -392,9 +392,13 @@ func (sc *scenario) genStream(r *rand.Rand, idx int) stream {
 		st.Variant = fmt.Sprintf("name=%d %s %s", k, pl, posName[pos])
 		st.Bytes = asm(true, place(reg(names[k], data), pos), true)
 	case "absolute":
-		tmpl := r.Intn(6)
+		tmpl := r.Intn(7)
 		var name string
 		switch tmpl {
+		case 6:
+			// outside the sandbox, in a directory that does not exist: only
+			// the syscall monitor can see an attempt
+			name = markerDir + "/abs_escape.zip"
 		case 0:
 			name = victim
 		case 1:
